@@ -61,7 +61,9 @@ pub proof fn wf_func_at(ss: Seq<LuaScope>, i: int)
     ensures
         forall|k: int| 0 <= k < kids(ss, i).len() ==> (#[trigger] kids(ss, i)[k] is Scope ==> st(ss, i) < st(ss, sidx(kids(ss, i)[k]))),
         forall|a: int, b: int| 0 <= a < kids(ss, i).len() && 0 <= b < kids(ss, i).len()
-                && #[trigger] kids(ss, i)[a] is Decl && #[trigger] kids(ss, i)[b] is Decl ==> a == b
+                && #[trigger] kids(ss, i)[a] is Decl && #[trigger] kids(ss, i)[b] is Decl ==> a == b,
+        forall|a: int, b: int| 0 <= a < kids(ss, i).len() && 0 <= b < kids(ss, i).len()
+                && #[trigger] kids(ss, i)[a] is Decl && #[trigger] kids(ss, i)[b] is Scope ==> a < b
 { reveal(tree_wf); assert(is_func(ss, i)); }
 
 pub proof fn wf_declpos_at(ss: Seq<LuaScope>, i: int, b: int, k: int)
@@ -293,6 +295,7 @@ pub open spec fn level_vis(ss: Seq<LuaScope>, i: int, x: ScopeOrDeclId, pos: int
         || (kids(ss, i)[k] is Scope && sidx(kids(ss, i)[k]) < ss.len() && stmt_kind(kd(ss, sidx(kids(ss, i)[k])))
             && listed_from(kids(ss, sidx(kids(ss, i)[k])), 0, x) && stmt_after(ss, sidx(kids(ss, i)[k]), pos)))
 }
+#[verifier::spinoff_prover]
 pub proof fn lemma_level_char(ss: Seq<LuaScope>, i: int, p: int, pos: int, x: ScopeOrDeclId)
     requires tree_wf(ss), ctx0(ss, i, p, pos), kd(ss, i) != LuaScopeKind::LocalOrAssignStat
     ensures m_search(ss, i, p).contains(x) <==> level_vis(ss, i, x, pos)
@@ -504,6 +507,7 @@ pub proof fn lemma_body_search_sound(ss: Seq<LuaScope>, rp: int, p: int, pos: in
     }
 }
 /// everything emitted above scope u is visible, and everything visible whose level is above u is emitted
+#[verifier::spinoff_prover]
 pub proof fn lemma_up(ss: Seq<LuaScope>, u: int, p: int, pos: int)
     requires tree_wf(ss), chain_step(ss, u, p, pos)
     ensures sound_seq(ss, m_up(ss, u, p), pos), complete_from(ss, m_up(ss, u, p), pos, par(ss, u))
@@ -584,6 +588,7 @@ pub proof fn lemma_up(ss: Seq<LuaScope>, u: int, p: int, pos: int)
 }
 
 /// the whole lookup from the scope find_scope returns: exactly the declarations the real code's notion of visibility admits
+#[verifier::spinoff_prover]
 pub proof fn lemma_entry(ss: Seq<LuaScope>, l: int, pos: int)
     requires tree_wf(ss), is_leaf(ss, l, pos)
     ensures sound_seq(ss, m_visit(ss, l, pos, true), pos), complete_from(ss, m_visit(ss, l, pos, true), pos, l)
@@ -681,6 +686,7 @@ pub proof fn lemma_entry(ss: Seq<LuaScope>, l: int, pos: int)
     }
 }
 /// THE LINK: the traversal started at the scope find_scope returns emits exactly the declarations `visible` (code reading) admits
+#[verifier::spinoff_prover]
 pub proof fn lemma_trace_is_visible(ss: Seq<LuaScope>, l: int, pos: int)
     requires tree_wf(ss), is_leaf(ss, l, pos)
     ensures forall|d: LuaDeclId| #[trigger] m_visit(ss, l, pos, true).contains(ScopeOrDeclId::Decl(d)) <==> visible(ss, d, pos, false),
@@ -740,47 +746,54 @@ pub open spec fn same_stmt(ss: Seq<LuaScope>, x: ScopeOrDeclId, y: ScopeOrDeclId
     x is Decl && y is Decl && exists|s: int| 0 <= s < ss.len() && kd(ss, s) == LuaScopeKind::LocalOrAssignStat
         && #[trigger] kids(ss, s).contains(x) && kids(ss, s).contains(y)
 }
+/// v occurs in t before index a
+pub open spec fn seen_before(t: Seq<ScopeOrDeclId>, a: int, v: ScopeOrDeclId) -> bool { exists|c: int| 0 <= c < a && t[c] == v }
+pub open spec fn ord_pair(ss: Seq<LuaScope>, t: Seq<ScopeOrDeclId>, a: int, b: int) -> bool {
+    (0 <= a < t.len() && 0 <= b < t.len() && xpos(t[b]) > xpos(t[a])) ==> (seen_before(t, a, t[b]) || same_stmt(ss, t[a], t[b]))
+}
 /// an element with a larger position than an earlier one is a repetition of something emitted before that one, or the two are names of
 /// one statement (the real code walks those forward)
 pub open spec fn ordered(ss: Seq<LuaScope>, t: Seq<ScopeOrDeclId>) -> bool {
-    forall|a: int, b: int| 0 <= a < t.len() && 0 <= b < t.len() && xpos(#[trigger] t[b]) > xpos(#[trigger] t[a])
-        ==> (exists|c: int| 0 <= c < a && t[c] == t[b]) || same_stmt(ss, t[a], t[b])
+    forall|a: int, b: int| #[trigger] ord_pair(ss, t, a, b)
+}
+pub open spec fn cross_pair(x: Seq<ScopeOrDeclId>, y: Seq<ScopeOrDeclId>, a: int, b: int) -> bool {
+    (0 <= a < x.len() && 0 <= b < y.len() && xpos(y[b]) > xpos(x[a])) ==> x.contains(y[b])
 }
 pub open spec fn cross(x: Seq<ScopeOrDeclId>, y: Seq<ScopeOrDeclId>) -> bool {
-    forall|a: int, b: int| 0 <= a < x.len() && 0 <= b < y.len() && xpos(#[trigger] y[b]) > xpos(#[trigger] x[a]) ==> x.contains(y[b])
+    forall|a: int, b: int| #[trigger] cross_pair(x, y, a, b)
 }
 pub proof fn lemma_ordered_concat(ss: Seq<LuaScope>, x: Seq<ScopeOrDeclId>, y: Seq<ScopeOrDeclId>)
     requires ordered(ss, x), ordered(ss, y), cross(x, y)
     ensures ordered(ss, x + y)
 {
     let t = x + y;
-    assert forall|a: int, b: int| 0 <= a < t.len() && 0 <= b < t.len() && xpos(#[trigger] t[b]) > xpos(#[trigger] t[a])
-        implies (exists|c: int| 0 <= c < a && t[c] == t[b]) || same_stmt(ss, t[a], t[b]) by {
-        if a < x.len() && b < x.len() {
-            assert(xpos(x[b]) > xpos(x[a]));
-            if exists|c: int| 0 <= c < a && x[c] == x[b] {
-                let c = choose|c: int| 0 <= c < a && x[c] == x[b];
-                assert(t[c] == t[b]);
+    assert forall|a: int, b: int| #[trigger] ord_pair(ss, t, a, b) by {
+        if 0 <= a < t.len() && 0 <= b < t.len() && xpos(t[b]) > xpos(t[a]) {
+            if a < x.len() && b < x.len() {
+                assert(ord_pair(ss, x, a, b));
+                if seen_before(x, a, x[b]) {
+                    let c = choose|c: int| 0 <= c < a && x[c] == x[b];
+                    assert(t[c] == t[b]);
+                }
+            } else if a >= x.len() && b >= x.len() {
+                let a1 = a - x.len(); let b1 = b - x.len();
+                assert(ord_pair(ss, y, a1, b1));
+                if seen_before(y, a1, y[b1]) {
+                    let c = choose|c: int| 0 <= c < a1 && y[c] == y[b1];
+                    assert(t[c + x.len()] == t[b]);
+                }
+            } else if a < x.len() {
+                let b1 = b - x.len();
+                assert(cross_pair(x, y, a, b1));
+                let m = choose|m: int| 0 <= m < x.len() && x[m] == y[b1];
+                assert(ord_pair(ss, x, a, m));
+                if seen_before(x, a, x[m]) {
+                    let c = choose|c: int| 0 <= c < a && x[c] == x[m];
+                    assert(t[c] == t[b]);
+                }
+            } else {
+                assert(t[b] == t[b] && 0 <= b < a);
             }
-        } else if a >= x.len() && b >= x.len() {
-            let a1 = a - x.len(); let b1 = b - x.len();
-            assert(xpos(y[b1]) > xpos(y[a1]));
-            if exists|c: int| 0 <= c < a1 && y[c] == y[b1] {
-                let c = choose|c: int| 0 <= c < a1 && y[c] == y[b1];
-                assert(t[c + x.len()] == t[b]);
-            }
-        } else if a < x.len() {
-            let b1 = b - x.len();
-            assert(xpos(y[b1]) > xpos(x[a]));
-            assert(x.contains(y[b1]));
-            let m = choose|m: int| 0 <= m < x.len() && x[m] == y[b1];
-            assert(xpos(x[m]) > xpos(x[a]));
-            if exists|c: int| 0 <= c < a && x[c] == x[m] {
-                let c = choose|c: int| 0 <= c < a && x[c] == x[m];
-                assert(t[c] == t[b]);
-            }
-        } else {
-            assert(t[b] == t[b] && 0 <= b < a);
         }
     }
 }
@@ -806,8 +819,8 @@ pub proof fn lemma_child_ordered(ss: Seq<LuaScope>, c: ScopeOrDeclId)
     ensures ordered(ss, m_child(ss, c))
 {
     let t = m_child(ss, c);
-    assert forall|a: int, b: int| 0 <= a < t.len() && 0 <= b < t.len() && xpos(#[trigger] t[b]) > xpos(#[trigger] t[a])
-        implies (exists|c2: int| 0 <= c2 < a && t[c2] == t[b]) || same_stmt(ss, t[a], t[b]) by {
+    assert forall|a: int, b: int| #[trigger] ord_pair(ss, t, a, b) by {
+      if 0 <= a < t.len() && 0 <= b < t.len() && xpos(t[b]) > xpos(t[a]) {
         assert(t.contains(t[a]) && t.contains(t[b]));
         lemma_child_char(ss, c, t[a]);
         lemma_child_char(ss, c, t[b]);
@@ -826,6 +839,7 @@ pub proof fn lemma_child_ordered(ss: Seq<LuaScope>, c: ScopeOrDeclId)
         } else {
             assert(t.len() == 1);
         }
+      }
     }
 }
 /// the reverse walk over children 0..=j of an ordered scope
@@ -840,7 +854,8 @@ pub proof fn lemma_walk_ordered(ss: Seq<LuaScope>, i: int, j: int)
         lemma_child_ordered(ss, ks[j]);
         let x = m_child(ss, ks[j]);
         let y = m_walk(ss, ks, j - 1);
-        assert forall|a: int, b: int| 0 <= a < x.len() && 0 <= b < y.len() && xpos(#[trigger] y[b]) > xpos(#[trigger] x[a]) implies x.contains(y[b]) by {
+        assert forall|a: int, b: int| #[trigger] cross_pair(x, y, a, b) by {
+          if 0 <= a < x.len() && 0 <= b < y.len() && xpos(y[b]) > xpos(x[a]) {
             assert(x.contains(x[a]) && y.contains(y[b]));
             lemma_child_char(ss, ks[j], x[a]);
             lemma_child_has_bounds(ss, i, j, x[a]);
@@ -849,6 +864,7 @@ pub proof fn lemma_walk_ordered(ss: Seq<LuaScope>, i: int, j: int)
             lemma_child_has_bounds(ss, i, k, y[b]);
             wf_order_at(ss, i, k, j);
             assert(false);
+          }
         }
         lemma_ordered_concat(ss, x, y);
     }
@@ -859,4 +875,293 @@ pub proof fn lemma_search_ordered(ss: Seq<LuaScope>, i: int, p: int)
 {
     lemma_cut_props(ss, kids(ss, i), p, kids(ss, i).len() as int);
     lemma_walk_ordered(ss, i, m_cut(ss, kids(ss, i), p, kids(ss, i).len() as int));
+}
+
+// ---- order across the levels of the chain ------------------------------------------------------------------------------------------------
+pub proof fn lemma_beta(ss: Seq<LuaScope>, i: int, b: int)
+    requires tree_wf(ss), 0 <= i < ss.len(), 0 <= b < kids(ss, i).len()
+    ensures st(ss, i) <= beta(ss, i, b),
+        kids(ss, i)[b] is Scope ==> beta(ss, i, b) <= st(ss, sidx(kids(ss, i)[b])),
+        kd(ss, i) != LuaScopeKind::LocalOrAssignStat ==> forall|a: int| 0 <= a < b ==> cend(ss, #[trigger] kids(ss, i)[a]) <= beta(ss, i, b),
+{
+    if kids(ss, i)[b] is Scope { wf_child(ss, i, b); }
+    if kd(ss, i) != LuaScopeKind::LocalOrAssignStat && b > 0 {
+        wf_order_at(ss, i, b - 1, b);
+        assert forall|a: int| 0 <= a < b implies cend(ss, #[trigger] kids(ss, i)[a]) <= beta(ss, i, b) by {
+            if a < b - 1 { wf_order_at(ss, i, a, b - 1); }
+        }
+    }
+}
+/// what the part X of the trace emitted at or below scope u (child b of its parent) must satisfy for the rest of the trace to follow in order
+pub open spec fn lower_ok(ss: Seq<LuaScope>, u: int, b: int, p: int, x: Seq<ScopeOrDeclId>) -> bool {
+    // everything emitted so far lies in u's slot or after it
+    &&& forall|e: ScopeOrDeclId| #[trigger] x.contains(e) ==> e is Decl && beta(ss, par(ss, u), b) <= xpos(e)
+    // the name of a function statement u: emitted already, or in front of everything emitted so far
+    &&& func_kind(kd(ss, u)) ==> forall|k: int| 0 <= k < kids(ss, u).len() && #[trigger] kids(ss, u)[k] is Decl
+            ==> x.contains(kids(ss, u)[k]) || forall|e: ScopeOrDeclId| #[trigger] x.contains(e) ==> xpos(e) > xpos(kids(ss, u)[k])
+    // a repeat body: searched already with this position
+    &&& (kd(ss, par(ss, u)) == LuaScopeKind::Repeat && first_scope(ss, par(ss, u)) == u)
+            ==> forall|e: ScopeOrDeclId| #[trigger] m_search(ss, u, p).contains(e) ==> x.contains(e)
+}
+#[verifier::spinoff_prover]
+pub proof fn lemma_up_ord(ss: Seq<LuaScope>, u: int, b: int, p: int, pos: int, x: Seq<ScopeOrDeclId>)
+    requires tree_wf(ss), chain_step(ss, u, p, pos), is_scope_child(ss, par(ss, u), b, u), ordered(ss, x), lower_ok(ss, u, b, p, x)
+    ensures ordered(ss, x + m_up(ss, u, p))
+    decreases u
+{
+    let b0 = wf_parent(ss, u);
+    let i = par(ss, u);
+    lemma_inside_parent(ss, u, pos);
+    lemma_visit_unfold(ss, u, p, false);
+    lemma_visit_unfold(ss, i, p, false);
+    lemma_beta(ss, i, b);
+    wf_basic(ss);
+    if kd(ss, i) == LuaScopeKind::LocalOrAssignStat {
+        wf_stmt_at(ss, i);
+        let ki = wf_parent(ss, i);
+        lemma_beta(ss, par(ss, i), ki);
+        assert(lower_ok(ss, i, ki, st(ss, i), x));
+        lemma_up_ord(ss, i, ki, st(ss, i), pos, x);
+    } else {
+        lemma_ctx_from_child(ss, u, b, p, pos);
+        let body = first_scope(ss, i);
+        let a_s = if kd(ss, i) == LuaScopeKind::Repeat && body >= 0 { m_search(ss, body, p) } else { Seq::<ScopeOrDeclId>::empty() };
+        let bs = m_search(ss, i, p);
+        let cs = m_up(ss, i, p);
+        // ---- X + (search of the repeat body)
+        if kd(ss, i) == LuaScopeKind::Repeat {
+            wf_repeat_at(ss, i);
+            lemma_search_ordered(ss, body, p);
+            assert forall|a: int, b1: int| #[trigger] cross_pair(x, a_s, a, b1) by {
+                if 0 <= a < x.len() && 0 <= b1 < a_s.len() && xpos(a_s[b1]) > xpos(x[a]) {
+                    assert(a_s.contains(a_s[b1]) && x.contains(x[a]));
+                    if b != 0 {
+                        lemma_search_char(ss, body, p, a_s[b1]);
+                        let k = choose|k: int| 0 <= k < kids(ss, body).len() && before(ss, kids(ss, body)[k], p) && child_has(ss, kids(ss, body)[k], a_s[b1]);
+                        lemma_child_has_bounds(ss, body, k, a_s[b1]);
+                        wf_child(ss, body, k);
+                        assert(cend(ss, kids(ss, i)[0]) <= beta(ss, i, b));
+                        assert(false);
+                    }
+                }
+            }
+        } else {
+            lemma_ordered_empty(ss);
+            assert forall|a: int, b1: int| #[trigger] cross_pair(x, a_s, a, b1) by {}
+        }
+        lemma_ordered_concat(ss, x, a_s);
+        let x1 = x + a_s;
+        // ---- ... + (search of scope i)
+        lemma_search_ordered(ss, i, p);
+        assert forall|a: int, b1: int| #[trigger] cross_pair(x1, bs, a, b1) by {
+            if 0 <= a < x1.len() && 0 <= b1 < bs.len() && xpos(bs[b1]) > xpos(x1[a]) {
+                let y = bs[b1];
+                assert(bs.contains(y) && x1.contains(x1[a]));
+                lemma_concat_contains(x, a_s, x1[a]);
+                lemma_concat_contains(x, a_s, y);
+                lemma_search_char(ss, i, p, y);
+                let k = choose|k: int| 0 <= k < kids(ss, i).len() && before(ss, kids(ss, i)[k], p) && child_has(ss, kids(ss, i)[k], y);
+                lemma_child_has_bounds(ss, i, k, y);
+                if kd(ss, i) == LuaScopeKind::Repeat {
+                    // a repeat scope holds no declarations and no statements
+                    assert(kids(ss, i)[k] is Scope);
+                    wf_child(ss, i, k);
+                    wf_stmt_at(ss, sidx(kids(ss, i)[k]));
+                    assert(false);
+                }
+                assert(a_s.len() == 0);
+                assert(x.contains(x1[a]));
+                if k < b {
+                    assert(cend(ss, kids(ss, i)[k]) <= beta(ss, i, b));
+                    assert(false);
+                } else if k > b {
+                    wf_order_at(ss, i, b, k);
+                    assert(false);
+                } else {
+                    assert(child_state(ss, u, p, pos));
+                    assert(func_kind(kd(ss, u)));
+                    let j = choose|j: int| 0 <= j < kids(ss, u).len() && kids(ss, u)[j] == y;
+                    assert(kids(ss, u)[j] is Decl);
+                    assert(x.contains(y));
+                }
+            }
+        }
+        lemma_ordered_concat(ss, x1, bs);
+        let x2 = x1 + bs;
+        assert(x + m_up(ss, u, p) =~= x2 + cs);
+        if i > 0 {
+            let ki = wf_parent(ss, i);
+            lemma_beta(ss, par(ss, i), ki);
+            if func_kind(kd(ss, i)) { wf_func_at(ss, i); assert(kids(ss, i)[b] is Scope); }
+            assert(chain_step(ss, i, p, pos));
+            // lower_ok for the next level
+            assert forall|e: ScopeOrDeclId| #[trigger] x2.contains(e) implies e is Decl && beta(ss, par(ss, i), ki) <= xpos(e) by {
+                lemma_concat_contains(x1, bs, e);
+                lemma_concat_contains(x, a_s, e);
+                if bs.contains(e) {
+                    lemma_search_char(ss, i, p, e);
+                    let k = choose|k: int| 0 <= k < kids(ss, i).len() && before(ss, kids(ss, i)[k], p) && child_has(ss, kids(ss, i)[k], e);
+                    lemma_child_has_bounds(ss, i, k, e);
+                    if kids(ss, i)[k] is Decl { wf_declpos_at(ss, par(ss, i), ki, k); } else { wf_child(ss, i, k); }
+                } else if a_s.contains(e) {
+                    lemma_search_char(ss, body, p, e);
+                    let k = choose|k: int| 0 <= k < kids(ss, body).len() && before(ss, kids(ss, body)[k], p) && child_has(ss, kids(ss, body)[k], e);
+                    lemma_child_has_bounds(ss, body, k, e);
+                    wf_child(ss, body, k);
+                    wf_child(ss, i, 0);
+                }
+            }
+            if func_kind(kd(ss, i)) {
+                assert forall|k: int| 0 <= k < kids(ss, i).len() && #[trigger] kids(ss, i)[k] is Decl implies x2.contains(kids(ss, i)[k]) by {
+                    let y = kids(ss, i)[k];
+                    wf_order_at(ss, i, k, b);
+                    assert(before(ss, y, p) && child_has(ss, y, y));
+                    lemma_search_char(ss, i, p, y);
+                    lemma_concat_contains(x1, bs, y);
+                }
+            }
+            assert forall|e: ScopeOrDeclId| #[trigger] m_search(ss, i, p).contains(e) implies x2.contains(e) by {
+                lemma_concat_contains(x1, bs, e);
+            }
+            assert(lower_ok(ss, i, ki, p, x2));
+            lemma_up_ord(ss, i, ki, p, pos, x2);
+        } else {
+            assert(cs =~= Seq::<ScopeOrDeclId>::empty());
+            assert(x2 + cs =~= x2);
+        }
+    }
+}
+/// a repeat scope's own search emits nothing (it holds the body block and the closures of the condition only)
+pub proof fn lemma_repeat_search_empty(ss: Seq<LuaScope>, i: int, p: int)
+    requires tree_wf(ss), 0 <= i < ss.len(), kd(ss, i) == LuaScopeKind::Repeat
+    ensures m_search(ss, i, p).len() == 0
+{
+    let t = m_search(ss, i, p);
+    if t.len() > 0 {
+        assert(t.contains(t[0]));
+        lemma_search_char(ss, i, p, t[0]);
+        let k = choose|k: int| 0 <= k < kids(ss, i).len() && before(ss, kids(ss, i)[k], p) && child_has(ss, kids(ss, i)[k], t[0]);
+        wf_repeat_at(ss, i);
+        assert(kids(ss, i)[k] is Scope);
+        wf_child(ss, i, k);
+        wf_stmt_at(ss, sidx(kids(ss, i)[k]));
+        assert(false);
+    }
+}
+/// C13 (i) + (vi), order half: the whole trace is in closest-first order (up to repetitions and names of one statement)
+#[verifier::spinoff_prover]
+pub proof fn lemma_entry_ord(ss: Seq<LuaScope>, l: int, pos: int)
+    requires tree_wf(ss), is_leaf(ss, l, pos)
+    ensures ordered(ss, m_visit(ss, l, pos, true))
+{
+    let t = m_visit(ss, l, pos, true);
+    let e = Seq::<ScopeOrDeclId>::empty();
+    lemma_visit_unfold(ss, l, pos, true);
+    lemma_ctx_leaf(ss, l, pos);
+    lemma_ordered_empty(ss);
+    wf_basic(ss);
+    if kd(ss, l) == LuaScopeKind::LocalOrAssignStat {
+        wf_stmt_at(ss, l);
+        let kl = wf_parent(ss, l);
+        assert(chain_step(ss, l, st(ss, l), pos));
+        assert(lower_ok(ss, l, kl, st(ss, l), e));
+        lemma_up_ord(ss, l, kl, st(ss, l), pos, e);
+        assert(e + m_up(ss, l, st(ss, l)) =~= t);
+    } else if kd(ss, l) == LuaScopeKind::ForRange {
+        if l > 0 {
+            let kl = wf_parent(ss, l);
+            assert(chain_step(ss, l, pos, pos));
+            if kd(ss, par(ss, l)) == LuaScopeKind::Repeat { wf_repeat_at(ss, par(ss, l)); }
+            assert(lower_ok(ss, l, kl, pos, e));
+            lemma_up_ord(ss, l, kl, pos, pos, e);
+            assert(e + m_up(ss, l, pos) =~= t);
+        } else {
+            assert(t =~= e);
+        }
+    } else if kd(ss, l) == LuaScopeKind::Repeat {
+        wf_repeat_at(ss, l);
+        let body = first_scope(ss, l);
+        lemma_visit_unfold(ss, body, pos, true);
+        lemma_visit_unfold(ss, l, pos, false);
+        let a_s = m_search(ss, body, pos);
+        let bs = m_search(ss, l, pos);
+        let cs = m_up(ss, l, pos);
+        lemma_repeat_search_empty(ss, l, pos);
+        lemma_search_ordered(ss, body, pos);
+        assert forall|a: int, b1: int| #[trigger] cross_pair(a_s, a_s, a, b1) by {
+            if 0 <= b1 < a_s.len() { assert(a_s.contains(a_s[b1])); }
+        }
+        lemma_ordered_concat(ss, a_s, a_s);
+        let x = a_s + a_s;
+        assert(t =~= x + cs) by { assert(bs =~= e); assert(a_s + bs =~= a_s); }
+        if l > 0 {
+            let kl = wf_parent(ss, l);
+            lemma_beta(ss, par(ss, l), kl);
+            assert(chain_step(ss, l, pos, pos));
+            assert forall|el: ScopeOrDeclId| #[trigger] x.contains(el) implies el is Decl && beta(ss, par(ss, l), kl) <= xpos(el) by {
+                lemma_concat_contains(a_s, a_s, el);
+                lemma_search_char(ss, body, pos, el);
+                let k = choose|k: int| 0 <= k < kids(ss, body).len() && before(ss, kids(ss, body)[k], pos) && child_has(ss, kids(ss, body)[k], el);
+                lemma_child_has_bounds(ss, body, k, el);
+                wf_child(ss, body, k);
+                wf_child(ss, l, 0);
+            }
+            if kd(ss, par(ss, l)) == LuaScopeKind::Repeat { wf_repeat_at(ss, par(ss, l)); }
+            assert(lower_ok(ss, l, kl, pos, x));
+            lemma_up_ord(ss, l, kl, pos, pos, x);
+        } else {
+            assert(cs =~= e);
+            assert(x + cs =~= x);
+        }
+    } else {
+        let x = m_search(ss, l, pos);
+        let cs = m_up(ss, l, pos);
+        lemma_search_ordered(ss, l, pos);
+        assert(t == x + cs);
+        if l > 0 {
+            let kl = wf_parent(ss, l);
+            lemma_beta(ss, par(ss, l), kl);
+            assert(chain_step(ss, l, pos, pos));
+            assert forall|el: ScopeOrDeclId| #[trigger] x.contains(el) implies el is Decl && beta(ss, par(ss, l), kl) <= xpos(el) by {
+                lemma_search_char(ss, l, pos, el);
+                let k = choose|k: int| 0 <= k < kids(ss, l).len() && before(ss, kids(ss, l)[k], pos) && child_has(ss, kids(ss, l)[k], el);
+                lemma_child_has_bounds(ss, l, k, el);
+                if kids(ss, l)[k] is Decl { wf_declpos_at(ss, par(ss, l), kl, k); } else { wf_child(ss, l, k); }
+            }
+            if func_kind(kd(ss, l)) {
+                wf_func_at(ss, l);
+                assert forall|k: int| 0 <= k < kids(ss, l).len() && #[trigger] kids(ss, l)[k] is Decl
+                    implies x.contains(kids(ss, l)[k]) || forall|el: ScopeOrDeclId| #[trigger] x.contains(el) ==> xpos(el) > xpos(kids(ss, l)[k]) by {
+                    let f = kids(ss, l)[k];
+                    lemma_search_char(ss, l, pos, f);
+                    if before(ss, f, pos) {
+                        assert(child_has(ss, f, f));
+                        assert(x.contains(f));
+                    } else {
+                        assert forall|el: ScopeOrDeclId| #[trigger] x.contains(el) implies xpos(el) > xpos(f) by {
+                            lemma_search_char(ss, l, pos, el);
+                            let k2 = choose|k2: int| 0 <= k2 < kids(ss, l).len() && before(ss, kids(ss, l)[k2], pos) && child_has(ss, kids(ss, l)[k2], el);
+                            if kids(ss, l)[k2] is Scope {
+                                wf_child(ss, l, k2);
+                                wf_stmt_at(ss, sidx(kids(ss, l)[k2]));
+                            }
+                            assert(false);
+                        }
+                    }
+                }
+            }
+            assert(lower_ok(ss, l, kl, pos, x));
+            lemma_up_ord(ss, l, kl, pos, pos, x);
+        } else {
+            assert(cs =~= e);
+            assert(x + cs =~= x);
+        }
+    }
+}
+/// an element that did not occur before index j has no larger position than t[j], unless the two are names of one statement
+pub proof fn lemma_first_is_latest(ss: Seq<LuaScope>, t: Seq<ScopeOrDeclId>, j: int, b: int)
+    requires ordered(ss, t), 0 <= j < t.len(), 0 <= b < t.len(), forall|c: int| 0 <= c < j ==> t[c] != t[b]
+    ensures xpos(t[b]) <= xpos(t[j]) || same_stmt(ss, t[j], t[b])
+{
+    assert(ord_pair(ss, t, j, b));
 }
